@@ -23,6 +23,8 @@ type histOp struct {
 	Key    int
 	Kind   string // set, del, get, meta
 	WID    int    // set: write id (op id)
+	VID    int    // set/bump: identity of the value bytes (id of the set that first carried them)
+	Rev    int32  // bump: explicit revision
 	Call   int64
 	Ret    int64
 	// outputs
@@ -56,6 +58,7 @@ type concExec struct {
 	injKey   int
 	injReq   bool
 	injBusy  bool
+	injVal   []byte // bytes of the record the pass is relocating (for an injected same-value revision bump)
 }
 
 func (x *concExec) fail(rule, sub, msg string) {
@@ -157,7 +160,27 @@ func genConcPlan(prop string, seed uint64, tier string) *Plan {
 				continue
 			}
 			perKey[op.K]++
-			switch r.Weighted([]int{40, 12, 35, 13}) {
+			switch r.Weighted([]int{40, 12, 35, 13, 6}) {
+			case 4:
+				// the value of an earlier write of this key again, with an explicit larger revision: under
+				// check_vhash this raises the version in the index only (no record is written)
+				op.Kind = "get"
+				var refs []Op
+				for _, l := range append([][]Op{p.Ops}, append(p.Clients, ops)...) {
+					for _, o := range l {
+						if o.Kind == "set" && o.K == op.K {
+							refs = append(refs, o)
+						}
+					}
+				}
+				if len(refs) > 0 {
+					ref := refs[r.Intn(len(refs))]
+					op.Kind = "bump"
+					op.V = ref.V
+					op.VID = ref.vid()
+					op.Flag = ref.Flag
+					op.Rev = int32(1000 + 7*id + r.Intn(7))
+				}
 			case 0:
 				op.Kind = "set"
 				op.V = ValSpec{Class: r.Pick(VConst, VText, VRandom, VPeriodic), Len: r.Pick(10, 30, 100, 200, 250, 400, int(c.BodyMax) - 1), Seed: uint32(r.U64())}
@@ -225,6 +248,9 @@ func genConcPlan(prop string, seed uint64, tier string) *Plan {
 			op := Op{ID: id, Kind: "iset", V: ValSpec{Class: r.Pick(VConst, VText), Len: r.Pick(10, 10, 100, 230), Seed: uint32(r.U64())}}
 			if r.Bool(1, 4) {
 				op.Kind = "idel"
+			} else if r.Bool(1, 3) {
+				op.Kind = "ibump" // the relocated record's own value with a larger explicit revision
+				op.Rev = int32(1000 + 7*id + r.Intn(7))
 			}
 			env = append(env, op)
 		}
@@ -262,6 +288,10 @@ func (x *concExec) maybeInject(g *Gen, ev *simrt.FSEvent) {
 	}
 	x.injBusy = true
 	x.injKey = k
+	x.injVal = nil
+	if rec.Flag&0x10000 == 0 && rec.Ver > 0 {
+		x.injVal = append([]byte(nil), rec.Val...)
+	}
 	x.injReq = true
 	g.W.WaitCond("gc-parked-for-injection", func() bool { return !x.injReq })
 	x.injBusy = false
@@ -286,11 +316,16 @@ func (x *concExec) doOp(ci int, op Op) {
 	epoch := len(x.gcTasks)
 	h.Call = x.tick()
 	switch op.Kind {
-	case "set":
+	case "set", "bump":
 		val := x.valOf[op.ID]
 		p := &store.Payload{}
 		p.Flag = op.Flag
 		p.Ver = 0
+		h.VID = op.vid()
+		if op.Kind == "bump" {
+			p.Ver = op.Rev
+			h.Rev = op.Rev
+		}
 		p.TS = uint32(g.W.Now().Unix())
 		if !p.CArray.Alloc(len(val)) {
 			h.Err = "alloc"
@@ -305,6 +340,9 @@ func (x *concExec) doOp(ci int, op Op) {
 		h.OutVer = p.Ver
 		if p.Ver == 0 {
 			h.OutNoop = true
+		}
+		if op.Kind == "bump" {
+			x.out.probe("same-value-revision-bump")
 		}
 	case "del":
 		p := store.GetPayloadForDelete()
@@ -375,13 +413,17 @@ func runConc(plan *Plan, tape *simrt.Tape) *Outcome {
 	all := append([][]Op{plan.Ops}, plan.Clients...)
 	for _, l := range all {
 		for _, op := range l {
-			if op.Kind == "set" || op.Kind == "iset" {
+			if op.Kind == "set" || op.Kind == "iset" || op.Kind == "ibump" {
 				v := makeValue(op.V, op.vid())
 				x.valOf[op.ID] = v
 				x.vals[string(v)] = op.ID
 				x.keyOfW[op.ID] = op.K
 			}
-			if op.Kind == "iset" || op.Kind == "idel" {
+			if op.Kind == "bump" {
+				x.valOf[op.ID] = makeValue(op.V, op.vid()) // the bytes of write #VID again
+				x.keyOfW[op.ID] = op.K
+			}
+			if op.Kind == "iset" || op.Kind == "idel" || op.Kind == "ibump" {
 				x.injOps = append(x.injOps, op)
 			}
 		}
@@ -430,7 +472,19 @@ func runConc(plan *Plan, tape *simrt.Tape) *Outcome {
 					op := x.injOps[x.injNext]
 					x.injNext++
 					op.K = x.injKey
-					if op.Kind == "iset" {
+					if op.Kind == "ibump" {
+						x.keyOfW[op.ID] = op.K
+						op.Kind = "set" // fallback: an ordinary write of its own value
+						if vid, ok := x.vals[string(x.injVal)]; ok && x.injVal != nil && x.keyOfW[vid] == op.K {
+							op.Kind = "bump"
+							op.VID = vid
+							op.Flag = 0
+							x.valOf[op.ID] = append([]byte(nil), x.injVal...)
+							x.out.probe("revision-bump-placed-in-gc-window")
+						} else {
+							op.Rev = 0
+						}
+					} else if op.Kind == "iset" {
 						op.Kind = "set"
 						x.keyOfW[op.ID] = op.K
 					} else {
@@ -558,7 +612,7 @@ func (x *concExec) runEnv(env []Op) {
 		target := start + int64(op.At)
 		w.WaitCondSteps("env-wait", int64(op.At)+1, func() bool { return w.Steps() >= target })
 		switch op.Kind {
-		case "iset", "idel":
+		case "iset", "idel", "ibump":
 			continue
 		case "flush":
 			g.H.VerifFlush(true)
@@ -594,6 +648,8 @@ func (x *concExec) runEnv(env []Op) {
 				gaps := NewRng(uint64(op.ID)*977 + x.plan.Seed)
 				w.GoHarness("gc2", func() {
 					for i := 0; i < 60; i++ {
+						// same bounded-delay assumption as for the first request
+						w.WaitCondSteps("rotated-flush-done", 200000, func() bool { return w.TasksDone("ds.flush", 0) })
 						do()
 						if len(x.gcTasks) > 0 && !x.gcRunning() && i > 3 {
 							return
@@ -620,6 +676,7 @@ func (x *concExec) finalCheck(phase string) {
 		wid int
 		del bool
 		ok  bool
+		bump bool
 	}
 	bests := map[int]best{}
 	for _, h := range x.hist {
@@ -633,6 +690,13 @@ func (x *concExec) finalCheck(phase string) {
 				continue
 			}
 			v = h.OutVer
+		case "bump":
+			// refused (revision not larger): the version comes back as 1; accepted: either a record was
+			// written or (check_vhash, equal value hash) only the version in the index was raised
+			if h.OutVer != h.Rev {
+				continue
+			}
+			v = h.OutVer
 		case "del":
 			if h.OutNF {
 				continue
@@ -643,7 +707,7 @@ func (x *concExec) finalCheck(phase string) {
 		}
 		b := bests[h.Key]
 		if !b.ok || abs32(v) > abs32(b.ver) {
-			bests[h.Key] = best{ver: v, wid: h.WID, del: h.Kind == "del", ok: true}
+			bests[h.Key] = best{ver: v, wid: h.WID, del: h.Kind == "del", ok: true, bump: h.Kind == "bump"}
 		}
 	}
 	for k, key := range x.plan.Keys {
@@ -670,7 +734,7 @@ func (x *concExec) finalCheck(phase string) {
 				return
 			}
 		default:
-			if !live || !bytes.Equal(body, x.valOf[b.wid]) {
+			if !live || (!bytes.Equal(body, x.valOf[b.wid]) && !(b.bump && refVHash(body) == refVHash(x.valOf[b.wid]))) {
 				got := "miss"
 				if live {
 					got = fmt.Sprintf("ver %d value of write #%d", ver, x.vals[string(body)])
@@ -696,6 +760,7 @@ type regIn struct {
 	Kind string
 	WID  int
 	VH   uint16
+	Rev  int32
 }
 
 type regOut struct {
@@ -731,6 +796,22 @@ func (x *concExec) model() porcupine.Model {
 					return false, s
 				}
 				return true, regState{o.Ver, in.WID}
+			case "bump":
+				// in.WID is the identity of the value bytes
+				if checkVHash && s.Ver > 0 && vh[s.WID] == in.VH {
+					// equal value hash: no record is written; a larger revision is recorded in the index only
+					if o.Ver != in.Rev {
+						return false, s
+					}
+					if in.Rev > s.Ver {
+						return true, regState{in.Rev, s.WID}
+					}
+					return true, s
+				}
+				if in.Rev <= abs32(s.Ver) {
+					return o.Ver == 1, s // refused
+				}
+				return o.Ver == in.Rev, regState{in.Rev, in.WID}
 			case "del":
 				if o.NF {
 					return s.Ver <= 0, s
@@ -785,6 +866,11 @@ func (x *concExec) checkHistory() {
 		in := regIn{Kind: h.Kind, WID: h.WID}
 		if h.Kind == "set" {
 			in.VH = refVHash(x.valOf[h.WID])
+		}
+		if h.Kind == "bump" {
+			in.VH = refVHash(x.valOf[h.WID])
+			in.WID = h.VID
+			in.Rev = h.Rev
 		}
 		o := regOut{Ver: h.OutVer, WID: h.OutWID, Miss: h.OutMiss, NF: h.OutNF, Noop: h.OutNoop}
 		byKey[h.Key] = append(byKey[h.Key], porcupine.Operation{ClientId: h.Client + 1, Input: in, Call: h.Call, Output: o, Return: h.Ret})
